@@ -132,7 +132,13 @@ def run_cases(run, cases, label, use_oracle=True):
                     if unquote_marks(r2.ev(c["page_ast"], None), r["out"]) == r["out"]:
                         sig = name
                         break
-                if sig and label.startswith("sel"):
+                squash = lambda t_: re.sub(r"\s+", "", t_).lower()
+                if not sig and label.startswith("sel") and not c["opts"].get("parserfns", True) and "{{#" in c["page"] + str(c["lib"]) \
+                        and squash(want) == squash(r["out"]):
+                    sig = "c13:identity:whitespace-in-unexpanded-parser-function"
+                    run.property_failure(sig, "output %r, reference %r (differs only by blanks in an unexpanded parser function)"
+                                         % (r["out"], want), {k: c[k] for k in ("lib", "page", "opts", "title")})
+                elif sig and label.startswith("sel"):
                     run.histogram["c04-known-kludge-seen"] = run.histogram.get("c04-known-kludge-seen", 0) + 1
                 elif sig:
                     run.property_failure(sig, "output %r, MediaWiki rules give %r" % (r["out"], want),
